@@ -37,6 +37,7 @@ type Case struct {
 //	preload_lua    Mod, Ld: package.preload[Mod] = function(...) <Ld> end   executed as Lua
 //	preload_go     Mod, Ld: L.PreloadModule(Mod, <LGFunction interpreting Ld>)
 //	preload_clear  Mod:     package.preload[Mod] = nil
+//	preload_replace Val:    package.preload = {} ("empty") or a shallow copy of itself ("copy")
 //	loaded_clear   Mod:     package.loaded[Mod] = nil
 //	loaded_set     Mod, Val (false | true | table | string): package.loaded[Mod] = <value>
 //	file_write     File, Ld: write a module file (relative to the scratch root) whose chunk is <Ld>
@@ -506,6 +507,13 @@ func (m *model) step(a *Action, idx int) expect {
 		m.preload[a.Mod] = &preloadEntry{ld: a.Ld, go_: true}
 	case "preload_clear":
 		delete(m.preload, a.Mod)
+	case "preload_replace":
+		if len(m.preload) > 0 {
+			m.stat("preload_table_replaced_" + a.Val)
+		}
+		if a.Val == "empty" {
+			m.preload = map[string]*preloadEntry{}
+		}
 	case "loaded_clear":
 		if m.get(a.Mod).k == 'S' {
 			m.stat("clear_after_failure")
